@@ -3,6 +3,7 @@ package main
 import (
 	"fmt"
 	"math"
+	"path/filepath"
 	"sort"
 	"strconv"
 	"strings"
@@ -179,8 +180,10 @@ func (it *Interp) step() {
 }
 
 func (it *Interp) fileIndex(from int, path string) int {
+	// import paths are relative to the directory of the importing file
+	resolved := filepath.Clean(filepath.Join(filepath.Dir(it.prog.Files[from].Name), path))
 	for i, f := range it.prog.Files {
-		if f.Name == path {
+		if filepath.Clean(f.Name) == resolved {
 			return i
 		}
 	}
@@ -662,6 +665,10 @@ func (it *Interp) setVar(fr *frame, name string, v Value) {
 func (it *Interp) exec(fr *frame, s Stmt, top bool) ctl {
 	it.step()
 	switch x := s.(type) {
+	case RawStmt:
+		if strings.HasPrefix(strings.TrimSpace(x.Text), "//") {
+			return ctlNone // a comment line
+		}
 	case FuncDecl:
 		fd := x
 		it.funcs[fr.file][x.Name] = &fd
